@@ -28,7 +28,9 @@ func genLayoutTree(c *core.Ctx, cfgIdx int) layoutCase {
 	cfg := treeConfigs[cfgIdx%len(treeConfigs)]
 	t := newTree(cfg.dir, cfg.ext)
 	g := newStmtGen(r, stmtGenOpts{MaxDepth: 1 + r.Intn(3), IfHeavy: true, LoopHeavy: r.Intn(2) == 0})
-	layoutName := []string{"layouts/main", "layouts/base.v2", "shared/frame", "layouts/mail.min", "layouts/odd" + cfg.ext, "layouts/~base", "layouts/a~b", "layouts/sub/inner"}[r.Intn(8)]
+	layoutName := []string{"layouts/main", "layouts/base.v2", "shared/frame", "layouts/mail.min", "layouts/odd" + cfg.ext, "layouts/~base", "layouts/a~b", "layouts/sub/inner",
+		// directories and files whose names begin with dots
+		".shared/base", ".layouts/main", "layouts/.hidden", "..shared/frame", ".a/.b/.c"}[r.Intn(13)]
 	// reserve names: plain, starting with or holding '~' (only layout and component names know the alias), dotted, differing in case
 	reserves := [][]string{{"r0", "r1", "r2"}, {"r0", "r1", "r2"}, {"~side", "a~b", "~"}, {"title", "Title", "t.1"}, {"layouts/x", "~r0", "r0"}}[r.Intn(5)][:1+r.Intn(3)]
 	body := g.program(2 + r.Intn(4))
@@ -37,6 +39,10 @@ func genLayoutTree(c *core.Ctx, cfgIdx int) layoutCase {
 	withAcc := r.Intn(3) == 0
 	if withAcc {
 		body = append(append([]model.Stmt{model.Assign{Name: "acc", E: model.Lit{V: model.Int(0)}}}, body...), model.Text{S: " acc="}, model.Print{E: model.Var{Name: "acc"}})
+	}
+	if r.Intn(5) == 0 {
+		// the layout file begins with bytes editors like to add or drop: they are text of the layout like any other
+		body = append([]model.Stmt{model.Text{S: []string{"\ufeff", "\ufeff\ufeff<", "\n", "\r\n", "\xef\xbb", " "}[r.Intn(6)]}}, body...)
 	}
 	if r.Intn(3) == 0 {
 		// text with percent signs (style rules, discounts): it is text whichever entry point writes the page
